@@ -19,6 +19,9 @@ def main():
     out["diamond_ids"] = [fid(m.Diamond(x=1)), fid(m.Diamond(x=5)), fid(m.Diamond(z=7))]
     out["none_default"] = [fid(m.HolderB()), fid(m.HolderB(sub=m.OptB(o=None))), fid(m.HolderB(sub=m.OptB()))]
     out["none_default_value"] = m.HolderB().sub.o
+    from experimaestro import setmeta as _setmeta
+    out["meta_in_default"] = [fid(m.MHolder()), fid(m.MHolder(l=[_setmeta(m.MLeaf(x=1), True)])), fid(m.MHolder(l=[])),
+                              fid(m.MHolder().copy())]
     try:
         out["union_dict_ids"] = [fid(m.UD(d={"a": {"b": 1}, "c": 2})), fid(m.UD(d={"a": {"b": 1, "c": 2}}))]
     except Exception as e:  # noqa
